@@ -221,7 +221,15 @@ def compare(ex, op, a, b):
         return r if isinstance(op, ast.Is) else not r
     if isinstance(op, (ast.In, ast.NotIn)):
         r = contains(ex, b, a)
+        if isinstance(r, T):
+            return r if isinstance(op, ast.In) else tm.lnot(r)
         return r if isinstance(op, ast.In) else not r
+    if isinstance(a, sx.StrSym) or isinstance(b, sx.StrSym):
+        sym, other = (a, b) if isinstance(a, sx.StrSym) else (b, a)
+        if not isinstance(other, str) or not isinstance(op, (ast.Eq, ast.NotEq)):
+            raise OutOfSubset("operation on a symbolic string")
+        r = sym.eq_const(ex, other)
+        return r if isinstance(op, ast.Eq) else tm.lnot(r)
     if isinstance(a, str) or isinstance(b, str) or a is None or b is None:
         if isinstance(op, ast.Eq):
             return a == b
@@ -253,6 +261,8 @@ def contains(ex, container, item):
     if isinstance(container, (dict, set, frozenset)):
         return item in container
     if isinstance(container, (list, tuple)):
+        if isinstance(item, sx.StrSym):
+            return tm.lor(*[item.eq_const(ex, c) for c in container if isinstance(c, str)])
         if isinstance(item, str) or item is None:
             return item in container
         for x in container:
@@ -691,7 +701,9 @@ def lib_getattr(ex, o, name):
         if name == "join":
             return LibFn("str.join", lambda ex, it: "<str>")
         if name in ("strip", "lower", "upper"):
-            raise OutOfSubset("string method " + name)
+            if o in ("<str>", "<fstring>"):
+                raise OutOfSubset("string method on an opaque string")
+            return LibFn("str." + name, lambda ex, *a: getattr(o, name)(*a))
         raise OutOfSubset("str." + name)
     if isinstance(o, list):
         if name == "append":
